@@ -96,7 +96,11 @@ def strategy(tier):
             return st.fixed_dictionaries({"op": st.just("copy_from"), "leaf": st.just(si), "src": st.just(ti), "fill": ops.value_for(tnode),
                                           "how": st.sampled_from(["assign", "assign", "extend", "iadd", "update"])})
         transfer = st.sampled_from(twins).flatmap(transfer_for)
-        return st.fixed_dictionaries({"spec": st.just(spec), "ops": st.lists(ops.weighted((3, base), (1, transfer)), min_size=2, max_size=n)})
+        # text whose case change alters its length, at and around the length limit of the case-transforming field
+        ci = next(i for i, (p, nd) in enumerate(leaves) if p == ("zzcase",))
+        grow = st.tuples(st.sampled_from(["\u00df", "\ufb01", "\u0130", "\u0149", "a\u00df", "\u00dfx"]), st.integers(1, 4)).map(lambda t: (t[0] * t[1])[:5])
+        expand = st.fixed_dictionaries({"op": st.sampled_from(["setattr", "setitem"]), "leaf": st.just(ci), "value": grow})
+        return st.fixed_dictionaries({"spec": st.just(spec), "ops": st.lists(ops.weighted((6, base), (2, transfer), (1, expand)), min_size=2, max_size=n)})
     return st.tuples(worlds.schema_spec(tier), st.integers(0, len(STRICT_ITEMS) - 1)).map(lambda t: _twin(t[0], t[1])).flatmap(hist)
 
 
